@@ -61,3 +61,31 @@ func TestFailedLargeBatchLeavesNothingBehind(t *testing.T) {
 		t.Fatalf("a failed large-batch Write left %d table file(s) behind", len(tables))
 	}
 }
+
+// obligation leveldb.(*DB).has / (*DB).get :inv-init(loop 1, C01,C11:no-buffer-knew-the-key-so-far), first-buffer-that-knows-the-key-decides
+// A transaction sees its own deletions (still in its private buffer) through Get and Has alike, layered over the
+// DB state at its start.
+func TestTransactionSeesItsOwnDeletesThroughGetAndHas(t *testing.T) {
+	db, err := leveldb.Open(storage.NewMemStorage(), nil)
+	must(t, err)
+	defer db.Close()
+	must(t, db.Put([]byte("k"), []byte("v"), nil))
+	must(t, db.Put([]byte("stay"), []byte("v"), nil))
+	tr, err := db.OpenTransaction()
+	must(t, err)
+	defer tr.Discard()
+	must(t, tr.Delete([]byte("k"), nil))
+	if _, err := tr.Get([]byte("k"), nil); err != leveldb.ErrNotFound {
+		t.Fatalf("Get of a key deleted in the transaction: %v", err)
+	}
+	if ok, err := tr.Has([]byte("k"), nil); err != nil || ok {
+		t.Fatalf("Has of a key deleted in the transaction: %v %v", ok, err)
+	}
+	if ok, err := tr.Has([]byte("stay"), nil); err != nil || !ok {
+		t.Fatalf("Has of an untouched key: %v %v", ok, err)
+	}
+	must(t, tr.Put([]byte("k"), []byte("w"), nil))
+	if ok, err := tr.Has([]byte("k"), nil); err != nil || !ok {
+		t.Fatalf("Has of a key rewritten in the transaction: %v %v", ok, err)
+	}
+}
